@@ -128,7 +128,8 @@ def showText : Option Text → String
 
 def showMatch (m : Match Name Name) : String :=
   let subs := if m.subs.isEmpty then "-" else ",".intercalate (m.subs.map (fun s => asciiOfName s.enc))
-  s!"{asciiOfName m.enc}|{subs}|{m.chaos.bits32}|{showCoh m.cohs}|{if m.bom then 1 else 0}|{showText m.text}|{m.mbu.bits32}|{m.chaosPercents.bits32}|{m.coherencePercents.bits32}"
+  let lang := mostProbableNow m
+  s!"{asciiOfName m.enc}|{subs}|{m.chaos.bits32}|{showCoh m.cohs}|{if m.bom then 1 else 0}|{showText m.text}|{m.mbu.bits32}|{m.chaosPercents.bits32}|{m.coherencePercents.bits32}|{asciiOfName lang}"
 
 def showFault : Fault → String
   | .slice s => s!"slice@{s}"
